@@ -20,6 +20,7 @@ type rctx struct {
 	reqTag   byte
 	answered bool // a matching reply was delivered since the current request was sent
 	wantTag  byte // body tag of that reply
+	wantLen  int  // ... and its payload length (0: a reply with an empty payload)
 	stale    []uint32
 	// pending Recv
 	rg       *verif.G
@@ -81,7 +82,7 @@ func checkRecvs(cs []*rctx, lab string) {
 			verif.Reach("reply-returned")
 			verif.Assert(r.hasReq && r.answered, lab+"/reply-returned-without-matching-delivery")
 			if r.hasReq && r.answered {
-				ok := len(r.rmsg.Body) == 1 && r.rmsg.Body[0] == r.wantTag
+				ok := len(r.rmsg.Body) == r.wantLen && (r.wantLen == 0 || r.rmsg.Body[0] == r.wantTag)
 				verif.Assert(ok, lab+"/returned-reply-is-not-the-current-requests-reply")
 			}
 			verif.Assert(r.sends == r.rSends, lab+"/reply-returned-to-recv-started-before-newer-send")
@@ -189,11 +190,18 @@ func VH03a_history() {
 			if short {
 				p.Deliver(verif.Bytes("short", verif.Choice("shortlen", 4)))
 			} else {
-				p.Deliver([]byte{byte(id >> 24), byte(id >> 16), byte(id >> 8), byte(id), rtag})
+				// the reply's payload may be empty: the frame is then exactly the four id bytes
+				plen := 1
+				if kind <= 1 && verif.Choice("empty-payload", 2) == 1 {
+					plen = 0
+					verif.Reach("empty-reply")
+				}
+				p.Deliver([]byte{byte(id >> 24), byte(id >> 16), byte(id >> 8), byte(id), rtag}[:4+plen])
 				for _, r := range cs {
 					if r.hasReq && !r.answered && !r.closed && r.cur == id {
 						r.answered = true
 						r.wantTag = rtag
+						r.wantLen = plen
 					}
 				}
 			}
@@ -329,10 +337,12 @@ func VH04a_resend() {
 	finished := false // answered / cancelled
 	carrier := first.pipe
 	latestAt := first.at // when the request was last handed to a connection
+	elapsedOnce := false
 	for e := 0; e < E; e++ {
-		ev := verif.Choice("ev", 4)
+		ev := verif.Choice("ev", 4+verif.Param("elapsed", 0))
 		dropCaused := false
 		timerFired := false
+		intervalElapsed := false
 		switch ev {
 		case 0: // the carrying connection (or another one) is lost
 			p := pipes[verif.Choice("pipe", len(pipes))]
@@ -351,16 +361,28 @@ func VH04a_resend() {
 				verif.Assume(false)
 			}
 			timerFired = true
+		case 4: // the clock reaches exactly one retry interval after the latest transmission (solver-decided which timers are due)
+			if finished || retryMs == 0 || elapsedOnce {
+				verif.Assume(false)
+			}
+			elapsedOnce = true
+			verif.RunClockTo(latestAt + retry)
+			timerFired = true
+			intervalElapsed = true
 		case 3: // the reply arrives on some live connection
 			p := pipes[verif.Choice("pipe", len(pipes))]
 			if p.Closed || finished {
 				verif.Assume(false)
 			}
-			p.Deliver([]byte{byte(id >> 24), byte(id >> 16), byte(id >> 8), byte(id), 'R'})
+			plen := verif.Choice("reply-payload-len", 2) // an empty payload is a reply too
+			p.Deliver([]byte{byte(id >> 24), byte(id >> 16), byte(id >> 8), byte(id), 'R'}[:4+plen])
 			verif.Quiesce()
 			verif.Assert(rg.Done(), lab+"/reply-completes-recv")
 			if rg.Done() {
 				verif.Assert(rerr == nil, lab+"/reply-delivered")
+				if rerr == nil {
+					verif.Assert(len(rmsg.Body) == plen, lab+"/reply-payload-length")
+				}
 			}
 			finished = true
 			verif.Reach("answered")
@@ -404,6 +426,11 @@ func VH04a_resend() {
 					carrier = ev.Pipe
 				}
 			}
+		}
+		if intervalElapsed && live > 0 {
+			// 2b. ... and not later either: once the interval has elapsed without a reply the request is out again
+			verif.Assert(newTx == 1, lab+"/no-retransmission-although-the-retry-interval-elapsed")
+			verif.Reach("interval-elapsed")
 		}
 		if !finished && retryMs > 0 {
 			// 5. no lost resend: the carrier died and a live peer exists => it was re-sent
